@@ -5,7 +5,7 @@ from vlib.spec import H
 from wpull.protocol.http.web import WebSession
 from wpull.protocol.http.redirect import RedirectTracker
 from wpull.protocol.http.request import Request
-from wpull.errors import ProtocolError
+from wpull.errors import ProtocolError, ServerError, NetworkError
 from wpull.pipeline.session import ItemSession, URLItemSource
 import wpull.urlfilter as F
 
@@ -88,6 +88,35 @@ def _always_redirect(maxr, code_i, loc_i):
     return perr and sent == maxr + 1
 
 
+def _robots_redirect_loop(maxr, code_i, loc_i):
+    """robots.txt answers with a redirect for ever (to itself, to a chain of fresh URLs): the robots.txt fetch of one visit is given up
+    after max_redirects follow-ups like any other fetch."""
+    from wpull.protocol.http.robots import RobotsTxtChecker
+    from wpull.protocol.http.web import WebClient
+    from wpull.protocol.http.redirect import RedirectTracker
+    import functools
+    import harness.c20 as c20
+    code = pick([301, 302, 303, 307, 308], code_i)
+
+    def answer(k, request):
+        loc = pick(['http://a.example/robots.txt', 'http://a.example/robots.txt?n=%d' % k, '/robots.txt', 'http://b.example/robots.txt'], loc_i)
+        if k >= 30:
+            return (200, None)                      # (safety cap of the harness: an unbounded client must not hang the check)
+        return (code, loc)
+    with nosym():
+        c20._install_tempfiles()
+        client = stubs.StubHTTPClient(answer=answer)
+        wc = WebClient(http_client=client, redirect_tracker_factory=functools.partial(RedirectTracker, max_redirects=maxr))
+        checker = RobotsTxtChecker(web_client=wc)
+        req = Request('http://a.example/page')
+    try:
+        run(checker.can_fetch(req))
+    except (ProtocolError, ServerError, NetworkError):
+        pass
+    hit('gave-up')
+    return len(client.sent) <= maxr + 1 and client.held == 0
+
+
 _POOL_CODES = [200, 301, 307, 401, 404, 500]
 
 
@@ -132,11 +161,11 @@ def _one_update_per_visit(v0, v1, o0, o1, o2, password):
 
 
 # ---------------------------------------------------------------- closed retry loop
-def _retry_loop(tries, k0, k1, k2, k3, k4, robots=False):
+def _retry_loop(tries, k0, k1, k2, k3, k4, robots=False, retry_flags=False):
     kinds = [k0, k1, k2, k3, k4]
 
     def answer(k, request):
-        return pick(['neterr', (500, None), 'proto', (503, None)], kinds[k] if k < 5 else 0)
+        return pick(['neterr', (500, None), 'proto', (503, None), 'refused', 'dns'], kinds[k] if k < 5 else (4 if retry_flags else 0))
     with nosym():
         client = stubs.StubHTTPClient(answer=answer)
         checker = None
@@ -147,7 +176,7 @@ def _retry_loop(tries, k0, k1, k2, k3, k4, robots=False):
             from wpull.protocol.http.web import WebClient
             c20._install_tempfiles()
             checker = RobotsTxtChecker(web_client=WebClient(http_client=client))
-        env = stubs.build_web(client, filters=[F.SchemeFilter(), F.TriesFilter(tries)], robots_checker=checker)
+        env = stubs.build_web(client, filters=[F.SchemeFilter(), F.TriesFilter(tries)], robots_checker=checker, retry_flags=retry_flags)
         if robots:
             c20._install_tempfiles()
         env.table.add('http://a.example/')
@@ -203,6 +232,11 @@ HARNESSES = [
       samples=[(1, True, True, 302, 401, 308, 200, 200, 200, 0, 0, 0, 0, 0, 0)], need=['gave-up', 'finished'],
       funcs=['wpull/protocol/http/redirect.py:RedirectTracker.is_redirect', 'wpull/protocol/http/redirect.py:RedirectTracker.is_repeat'],
       doc='same bound with every status code a free symbolic integer 100..599'),
+    H('robots_redirect_loop', '_robots_redirect_loop', 'maxr: int, code_i: int, loc_i: int', pre=['0 <= maxr <= 5 and 0 <= code_i <= 4 and 0 <= loc_i <= 3'],
+      timeout={'quick': 200, 'thorough': 400}, samples=[(5, 0, 0), (2, 3, 1)], need=['gave-up'],
+      funcs=['wpull/protocol/http/robots.py:RobotsTxtChecker.fetch_robots_txt', 'wpull/protocol/http/web.py:WebSession._process_redirect'],
+      doc='a robots.txt that redirects for ever (cycle, endless chain, relative, other origin; 5 codes; limit 0..5): at most limit+1 '
+          'requests are made for it in one visit and no session is left holding a connection'),
     H('always_redirect', '_always_redirect', 'maxr: int, code_i: int, loc_i: int',
       pre={'quick': ['0 <= maxr <= 6 and 0 <= code_i <= 4 and 0 <= loc_i <= 5'], 'thorough': ['0 <= maxr <= 25 and 0 <= code_i <= 4 and 0 <= loc_i <= 5']},
       timeout={'quick': 200, 'thorough': 900}, samples=[(0, 0, 0), (3, 3, 1)], need=['gave-up'],
@@ -221,15 +255,16 @@ HARNESSES = [
              'wpull/processor/rule.py:ResultRule.handle_document_error'],
       doc='every visit (any of 12 outcomes per hop, <=3 hops, scope verdicts symbolic) ends with exactly one status update that counts '
           'one try and leaves the URL in a final or error state'),
-    H('retry_loop', '_retry_loop', 'tries: int, k0: int, k1: int, k2: int, k3: int, k4: int, robots: bool',
-      pre={'quick': ['1 <= tries <= 3', ' and '.join('0 <= k%d <= 3' % i for i in range(5))],
-           'thorough': ['1 <= tries <= 5', ' and '.join('0 <= k%d <= 3' % i for i in range(5))]},
-      parts={'quick': [{'tag': 't%d' % t, 'fix': {'tries': str(t), 'robots': 'False'}} for t in (1, 2, 3)]
-             + [{'tag': 'robots_t%d' % t, 'fix': {'tries': str(t), 'robots': 'True', 'k3': '0', 'k4': '0'}} for t in (1, 2)],
-             'thorough': [{'tag': 't%d%s' % (t, '_robots' if r else ''), 'fix': {'tries': str(t), 'robots': str(r)}} for t in (1, 2, 3, 4, 5) for r in (False, True)]},
-      timeout={'quick': 250, 'thorough': 1500}, samples=[(3, 0, 1, 2, 0, 0, False), (1, 1, 0, 0, 0, 0, False), (2, 1, 1, 1, 0, 0, True)], need=['left-alone'],
+    H('retry_loop', '_retry_loop', 'tries: int, k0: int, k1: int, k2: int, k3: int, k4: int, robots: bool, retry_flags: bool',
+      pre={'quick': ['1 <= tries <= 3', ' and '.join('0 <= k%d <= 5' % i for i in range(5))],
+           'thorough': ['1 <= tries <= 5', ' and '.join('0 <= k%d <= 5' % i for i in range(5))]},
+      parts={'quick': [{'tag': 't%d' % t, 'fix': {'tries': str(t), 'robots': 'False', 'retry_flags': 'False'}, 'pre': [' and '.join('k%d <= 3' % i for i in range(5))]} for t in (1, 2, 3)]
+             + [{'tag': 'robots_t%d' % t, 'fix': {'tries': str(t), 'robots': 'True', 'k3': '0', 'k4': '0', 'retry_flags': 'False'}, 'pre': ['k0 <= 3 and k1 <= 3 and k2 <= 3']} for t in (1, 2)]
+             + [{'tag': 'retryflags_t%d' % t, 'fix': {'tries': str(t), 'robots': 'False', 'retry_flags': 'True', 'k3': '4', 'k4': '5'}, 'pre': ['k0 >= 4 and k1 >= 3 and k2 >= 4']} for t in (2, 3)],
+             'thorough': [{'tag': 't%d%s' % (t, '_robots' if r else ''), 'fix': {'tries': str(t), 'robots': str(r), 'retry_flags': str(t % 2 == 0)}} for t in (1, 2, 3, 4, 5) for r in (False, True)]},
+      timeout={'quick': 250, 'thorough': 1500}, samples=[(3, 0, 1, 2, 0, 0, False, False), (1, 1, 0, 0, 0, 0, False, False), (2, 1, 1, 1, 0, 0, True, False), (2, 4, 5, 4, 4, 5, False, True)], need=['left-alone'],
       funcs=['wpull/pipeline/session.py:URLItemSource.get_item', 'wpull/urlfilter.py:TriesFilter.test',
              'wpull/processor/web.py:WebProcessorSession._process_robots', 'wpull/processor/rule.py:FetchRule.check_initial_web_request'],
       doc='closed loop item source -> processor -> table: a URL that always fails (4 failure kinds per attempt) is requested exactly '
-          '`tries` times, then skipped and never offered again - also when robots.txt checking is on and it is the robots.txt fetch that keeps failing'),
+          '`tries` times, then skipped and never offered again - also with --retry-connrefused / --retry-dns-error against refused connections and failing DNS, and when robots.txt checking is on and it is the robots.txt fetch that keeps failing'),
 ]
